@@ -46,8 +46,11 @@ type run struct {
 	all   []*qt.Pt // every pointer ever created (for re-adding removed ones, removing absent ones)
 	nextI int
 	nq    int
-	prev  []orb.Pointer // the caller's previous result; chained queries hand it back as their buffer
-	kept  []keptResult  // results the caller holds on to and never hands back
+	// arena: one array whose adjacent windows serve as k-nearest result buffers (nil: fresh buffers)
+	arena    []orb.Pointer
+	arenaOff int
+	prev     []orb.Pointer // the caller's previous result; chained queries hand it back as their buffer
+	kept     []keptResult  // results the caller holds on to and never hands back
 }
 
 // keptResult is a result slice the caller keeps while it goes on using the
@@ -189,12 +192,17 @@ func (r *run) remove(desc string, probe *qt.Pt, eq quadtree.FilterFunc, accept f
 func (r *run) query(q *qt.Query) bool {
 	var res qt.Result
 	api := qt.QueryNames[q.Kind]
+	if r.arena != nil && (q.Kind == qt.QKNearest || q.Kind == qt.QKNearestMatching) && q.BufCap >= 0 && q.K <= 64 && r.arenaOff+q.K <= len(r.arena) {
+		// the caller shares one result array out among its k-nearest queries
+		q.Win = r.arena[r.arenaOff : r.arenaOff+q.K]
+		r.arenaOff += q.K
+	}
 	if r.t.Guard(api, func() { res = q.ExecBuf(r.tr, r.prev) }) {
 		return false
 	}
 	if !res.IsOne {
 		r.nq++
-		if r.nq%3 == 0 {
+		if r.nq%3 == 0 && q.Win == nil { // (a window of the shared array is never handed back: its capacity covers other windows)
 			r.prev = res.Many
 		} else {
 			// never handed back: must stay as returned (the four most recent are watched)
@@ -297,6 +305,9 @@ func RunHistory(t *core.T) {
 	maxOps := []int{6, 20, 60, 150, 400}[s.Pick([]int{2, 3, 3, 2, 1}, "len")]
 	// sometimes a second tree lives in the same process and the history alternates between
 	// the two: each must behave as its own list, whatever the package keeps between calls
+	if s.Chance(1, 4, "arena") {
+		r.arena = make([]orb.Pointer, 600)
+	}
 	trees := []*run{r}
 	if s.Chance(1, 5, "twotrees") {
 		other := &run{t: t, w: r.w, nextI: 100000}
@@ -499,6 +510,22 @@ func RunFloaty(t *core.T) {
 	}
 	x0, y0 := fl("x0"), fl("y0")
 	b := orb.Bound{Min: orb.Point{x0, y0}, Max: orb.Point{x0 + 0.1 + math.Abs(fl("w")), y0 + 0.1 + math.Abs(fl("h"))}}
+	var extra []float64 // coordinates added to both axes' alphabets
+	switch s.Pick([]int{10, 1, 1}, "boundmode") {
+	case 1:
+		// a bound around zero so small that squared distances between distinct stored points underflow to 0
+		b = orb.Bound{Min: orb.Point{-1e-160, -1e-160}, Max: orb.Point{1e-160, 1e-160}}
+		extra = []float64{0, 5e-324, -5e-324, 1e-200, -1e-200, 1e-170, 1e-165, 3e-163}
+		t.Probe("subnormal_scale_bound")
+	case 2:
+		// "everything": infinite on one axis or both, so the midlines are NaN
+		b.Min[0], b.Max[0] = math.Inf(-1), math.Inf(1)
+		if s.Bool("bothaxes") {
+			b.Min[1], b.Max[1] = math.Inf(-1), math.Inf(1)
+		}
+		extra = []float64{0, 1, -1, 1e6, -1e6, 0.5, 123.25, -77.7, 1e100, -1e100} // (squared distances stay finite)
+		t.Probe("infinite_bound")
+	}
 	tr := quadtree.New(b)
 	t.Logf("bound %v..%v", b.Min, b.Max)
 	// coordinate alphabet: edges, midlines of the first levels by both formulas, their float neighbours, and free values
@@ -517,9 +544,18 @@ func RunFloaty(t *core.T) {
 		}
 		return vals
 	}
-	xs, ys := axis(b.Min[0], b.Max[0]), axis(b.Min[1], b.Max[1])
+	finite := func(vals []float64, lo, hi float64) []float64 {
+		var out []float64
+		for _, v := range append(vals, extra...) {
+			if !math.IsNaN(v) && !math.IsInf(v, 0) && v >= lo && v <= hi {
+				out = append(out, v)
+			}
+		}
+		return out
+	}
+	xs, ys := finite(axis(b.Min[0], b.Max[0]), b.Min[0], b.Max[0]), finite(axis(b.Min[1], b.Max[1]), b.Min[1], b.Max[1])
 	coord := func(vals []float64, lo, hi float64, label string) float64 {
-		if s.Chance(2, 3, label+"grid") {
+		if s.Chance(2, 3, label+"grid") || math.IsInf(lo, 0) || math.IsInf(hi, 0) || len(extra) > 0 && s.Bool(label+"extra") {
 			return vals[s.Intn(len(vals), label)]
 		}
 		return lo + (hi-lo)*float64(s.Intn(1<<20, label))/(1<<20)
